@@ -16,6 +16,42 @@ func (x *Exec) ConcRun(goroutines, rounds int) []GenOp {
 	x.newWorld()
 	x.emit(LogReset{K: "reset", Seq: x.seq, Rel: x.relNames(), Cfg: x.Cfg, Note: "conc"})
 	done := []GenOp{}
+	mkop := func(op string) GenOp {
+		return GenOp{Op: op, Add: []string{}, Rem: []string{}, Vals: FlexMap[int64]{}, Tg: FlexMap[int]{}, N: 1, Mode: "val",
+			Flt: GenFlt{With: []string{}, Without: []string{}, Ft: FlexMap[int]{}, Qt: FlexMap[int]{}}}
+	}
+	if x.rng.Intn(2) == 0 {
+		// 0. every other run: the world has a past - entities, a few queries run to their end (lock bits taken and
+		// released, one of them nested), then World.Reset; the concurrent phase runs on the reset world
+		for i := 0; i < 5; i++ {
+			if op, ok := x.randomOp(40); ok && op.Op != "Reset" && op.Op != "DumpLoad" && op.Op != "Load" && op.Op != "QOpen" {
+				done = append(done, op)
+				if lo := x.run(op, -10+i); lo.Panic {
+					x.emit(lo)
+					return done
+				} else {
+					x.emit(lo)
+				}
+			}
+		}
+		api := "typed"
+		if x.Cfg.Path == "unsafe" {
+			api = "unsafe"
+		}
+		all := GenFlt{With: []string{}, Without: []string{}, Ft: FlexMap[int]{}, Qt: FlexMap[int]{}}
+		x.emit(x.probe(0, all, api))
+		func() {
+			outer := ecs.NewFilter0(x.w).Query()
+			for outer.Next() {
+				inner := ecs.NewFilter0(x.w).Query()
+				for inner.Next() {
+				}
+			}
+		}()
+		rs := mkop("Reset")
+		done = append(done, rs)
+		x.emit(x.run(rs, -1))
+	}
 	// 1. a world: some dozens of entities, a few relation targets, a few structural changes
 	n := 60 + x.rng.Intn(60)
 	for i := 1; i <= n; i++ {
